@@ -262,6 +262,10 @@ func (g *G) Expr(cur jv.Val, depth int) ast.Expr {
 		return &ast.Unary{Op: "!", X: g.Expr(cur, depth+1)}
 	case k == 13 && g.Cfg.Compare:
 		op := Pick(t, "cmpop", []string{"==", "!=", "<", "<=", ">", ">="})
+		if Chance(t, "cmpwindows", 1, 6) {
+			l, r := g.windows(cur, depth+1)
+			return ast.Bin(op, l, r)
+		}
 		l := g.Expr(cur, depth+1)
 		var r ast.Expr
 		if Chance(t, "cmplit", 1, 2) {
@@ -287,6 +291,48 @@ func (g *G) Expr(cur jv.Val, depth int) ast.Expr {
 		return g.CallChain(cur, depth)
 	}
 	return g.Chain(cur, depth)
+}
+
+// windows draws two views of one and the same value: a chain X and the same
+// X seen through different windows (nothing, [*], [:], [:k], [k:], [a:b],
+// to_array, not_null), each closed by parentheses. Implementations tend to
+// return such views without copying, so that both operands of a comparison
+// share memory.
+func (g *G) windows(cur jv.Val, depth int) (ast.Expr, ast.Expr) {
+	t := g.T
+	x, ok := g.Chain(cur, depth).(*ast.Chain)
+	if !ok {
+		x = ast.Cur()
+	}
+	for _, st := range x.Steps {
+		if st.IsProjection() {
+			x = ast.Paren(x)
+			break
+		}
+	}
+	view := func(label string) ast.Expr {
+		k := int64(rapid.IntRange(0, 3).Draw(t, label+"k"))
+		switch rapid.IntRange(0, 8).Draw(t, label) {
+		case 0:
+			return x
+		case 1:
+			return ast.Paren(x.With(ast.Step{Kind: ast.SListStar}))
+		case 2:
+			return ast.Paren(x.With(ast.Step{Kind: ast.SSlice}))
+		case 3:
+			return ast.Paren(x.With(ast.Step{Kind: ast.SSlice, Stop: ast.I64(k)}))
+		case 4:
+			return ast.Paren(x.With(ast.Step{Kind: ast.SSlice, Start: ast.I64(k)}))
+		case 5:
+			return ast.Paren(x.With(ast.Step{Kind: ast.SSlice, Start: ast.I64(k / 2), Stop: ast.I64(k + 1)}))
+		case 6:
+			return ast.Call("to_array", ast.A(x))
+		case 7:
+			return ast.Call("not_null", ast.A(x))
+		}
+		return ast.Paren(x.With(ast.Step{Kind: ast.SSlice, Stop: ast.I64(-1)}))
+	}
+	return view("lwin"), view("rwin")
 }
 
 func stripMarks(v jv.Val) jv.Val {
@@ -648,6 +694,14 @@ func (g *G) cond(el jv.Val, depth int) ast.Expr {
 	case 1:
 		return &ast.Unary{Op: "!", X: g.Chain(el, depth)}
 	case 2, 3:
+		if Chance(t, "cmpwindows", 1, 8) {
+			l, r := g.windows(el, depth)
+			op := "=="
+			if g.Cfg.Compare {
+				op = Pick(t, "cmpop", []string{"==", "!=", "<=", "=="})
+			}
+			return ast.Bin(op, l, r)
+		}
 		l := g.Chain(el, depth)
 		lv := g.valueOf(l, el)
 		var r ast.Expr
